@@ -26,6 +26,8 @@ SEED_HINTS = {
 @PRIOR@""",
     "J": """- Earlier rounds already produced the following changes for this property. Do NOT repeat them or close variants of them. This time make it a small DATA-FLOW or VALUE mistake of the kind that survives review: the wrong one of two similar variables or fields (request vs response, old vs new, key vs key_bytes, generation before vs after the await), a stale copy where the live value was needed (or the reverse), `x or default` / `if x:` where 0, an empty string, an empty list or b"" is a legitimate value, `==` vs `is` (or `in` on the wrong container), an off-by-one in a slice, range, comparison or counter, integer vs true division, a loop variable captured late by a lambda/closure, a shared mutable default or class-level container, a shallow copy where the callee mutates, min vs max, a sign error, an index into the wrong position of a tuple, an argument passed to the wrong parameter of the right call. One to five changed lines. It must genuinely violate the property's statement:
 @PRIOR@""",
+    "K": """- Earlier rounds already produced the following changes for this property. Do NOT repeat them or close variants of them. This time break the property through the layers AROUND the mechanism, which earlier rounds hardly touched: `AIOKafkaClient` (connection pool keyed by node and group, `ready()`, `send()` routing and its timeout/close handling, `_get_conn`, metadata refresh and `force_metadata_update`, `_wait_on_metadata`, `coordinator_lookup`, api-version checks), `ClusterMetadata` (leaders, partitions, available partitions, coordinator bookkeeping, `update_metadata`, listeners), the PUBLIC methods of `AIOKafkaConsumer` / `AIOKafkaProducer` (argument validation and normalisation, `seek*`, `commit`, `committed`, `position`, `pause`/`resume`, `subscribe`/`assign`/`unsubscribe`, `partitions_for`, `start`/`stop` ordering, `__aenter__`/`__aexit__`, `flush`), `aiokafka/util.py` helpers, `structs.py`. The change must still genuinely violate THIS property's statement (say through which path), and the anchor functions themselves should stay untouched:
+@PRIOR@""",
 }
 SEED_HINT = None
 
@@ -38,6 +40,15 @@ NEUTRAL_STYLE = ("a third kind of clean-up than simple renames or extract-method
 
 
 NEUTRAL_STYLES = {
+    "V": ("a behaviour-preserving clean-up of the code AROUND the mechanism rather than of the mechanism: pick TWO OR THREE functions among "
+          "`AIOKafkaClient` (`__init__`, `bootstrap`, `_get_conn`, `ready`, `send`, `force_metadata_update`, `coordinator_lookup`), "
+          "`ClusterMetadata.update_metadata` and its getters, the public methods and constructors of `AIOKafkaConsumer` / `AIOKafkaProducer` "
+          "(argument validation and defaults, `seek*`, `commit`, `getone`/`getmany`, `subscribe`/`unsubscribe`, `send`, `__anext__`), "
+          "`aiokafka/util.py`, whichever of them the property's mechanism is reached through. Typical edits: restructure argument "
+          "validation (guard clauses, merged conditions), rename locals and private parameters, hoist repeated attribute reads, replace "
+          "`x = x or default` by an explicit `if x is None`-style default ONLY when equivalent for every legitimate value, split a long "
+          "constructor into the same assignments grouped differently, reorder independent statements, extract a small private helper. Every "
+          "value passed on, every exception raised (class and message), every default and every call order must stay exactly the same"),
     "U": ("a readability pass over TWO OR THREE anchor functions of the kind a reviewer asks for: name a magic sub-expression, replace a "
           "chained boolean by a well-named local flag computed just before it (same short-circuit order!), replace `len(x) == 0`/`not len(x)` by "
           "`not x` ONLY for real containers, replace an index loop by tuple unpacking or `enumerate`, turn `for ... : if cond: continue` into a "
